@@ -46,7 +46,7 @@ NOT_APPLICABLE = {}
 PROPS["C16"] = dict(
     harness="c16_sparselu", flavour="asan",
     quick=dict(workers=8, cases=8000, min_nontrivial=200),
-    thorough=dict(workers=16, cases=600000, min_nontrivial=2000, budget_s=3000),
+    thorough=dict(workers=16, cases=250000, min_nontrivial=2000, budget_s=3000),
     rule="Square sparse matrices admitting LU without pivoting by construction: patterns banded/arrow/random density "
          "0.02-0.5/block/9-point x values strictly row-dominant, column-dominant, or the product of a sparse unit-lower L "
          "and an upper U with |u_ii| in [0.1,10] (not dominant, non-symmetric); rows scaled by 10^U[-k,k], k in {0,3,6}, "
@@ -176,7 +176,7 @@ PROPS["C05"] = dict(
 PROPS["C04"] = dict(
     harness="c04_directsolver", flavour="rel",
     quick=dict(workers=8, cases=800, min_nontrivial=150),
-    thorough=dict(workers=16, cases=40000, min_nontrivial=1500, budget_s=3000),
+    thorough=dict(workers=16, cases=150000, min_nontrivial=1500, budget_s=3000),
     rule="Grids from the smallest hierarchy level (nr=5, ntheta=4) to 33x40, 2% up to 49x64 (fill-in), all spacing "
          "classes, explicit and automatic splits, four geometries, seven profiles, both boundary modes; "
          "DirectSolverGiveCustomLU (any cache-flag combination) and DirectSolverTakeCustomLU assembled with 1,2,3,5,16 "
@@ -320,7 +320,7 @@ PROPS["C13"] = dict(
 PROPS["C19"] = dict(
     harness="c19_manufactured", flavour="rel",
     quick=dict(workers=8, cases=12000, min_nontrivial=300),
-    thorough=dict(workers=16, cases=120000, min_nontrivial=3000, budget_s=3000),
+    thorough=dict(workers=16, cases=1200000, min_nontrivial=3000, budget_s=3000),
     require_class_prefix=[("tuple_g", 66)],
     rule="Selection tuples (geometry 0..3, problem 0..3, alpha 0..3, beta 0..1) drawn uniformly and pushed through "
          "setParameters (the run fails as an infrastructure error unless all 66+ tuples the table accepts were hit; "
@@ -369,7 +369,7 @@ PROPS["C01"] = dict(
 PROPS["C02"] = dict(
     harness="c02_order", flavour="rel",
     quick=dict(workers=8, cases=96, min_nontrivial=40),
-    thorough=dict(workers=16, cases=2400, min_nontrivial=300, budget_s=3300),
+    thorough=dict(workers=16, cases=1200, min_nontrivial=300, budget_s=3300),
     rule="Triples (CartesianR2/CartesianR6/PolarR6 x Circular/Shafranov/Czarny x 7 profiles, shipped shape parameters and "
          "documented alpha_jump), both boundary modes, take / give with all cache combinations, R0/Rmax 1e-5..0.1, "
          "refinement pair divideBy2 = k -> k+1 on nr_exp=4 (finest 65x128 or 129x256 in quick, up to 257x512 in thorough). "
@@ -393,7 +393,7 @@ PROPS["C02"] = dict(
 PROPS["C20"] = dict(
     harness="c20_options", flavour="asan", extra_targets={"asan": ["gmgpolar_cli"]},
     quick=dict(workers=8, cases=1200, min_nontrivial=300),
-    thorough=dict(workers=16, cases=60000, min_nontrivial=5000, budget_s=3300),
+    thorough=dict(workers=16, cases=30000, min_nontrivial=5000, budget_s=3300),
     rule="Two parts. api (70%): the full setter cross product in-process under ASan/UBSan/assert: every enum including "
          "out-of-range integers cast into the enum type, tolerances enabled/disabled, maxIterations 0..5 or 150, smoothing "
          "steps 0..3, maxLevels -1..7, threads 1/2/5, threadReductionFactor 1..0.01, smallest grids (nr_exp 1..4, ntheta_exp "
